@@ -11,7 +11,7 @@ from hypothesis import strategies as st
 from AegeanTools.models import ComponentSource, IslandSource
 from AegeanTools.source_finder import SourceFinder
 from vlib import fields, refs, skyimg
-from vlib.core import Res
+from vlib.core import Res, workdir
 
 PROP = "C13"
 SHARDS = {"quick": 16, "thorough": 16}
@@ -127,7 +127,7 @@ def check_case(c):
     rr, cc = np.indices(shape)
     bkgmap = c["bkglevel"] * (1.0 + 0.3 * np.sin(rr / 40.0) * np.cos(cc / 55.0)) if c["aux"] == "files" else np.full(shape, c["bkglevel"])
     tags = dict(aux=c["aux"], islandflux=c["islandflux"], docov=c["docov"], mixed_sign_island=bool(nmixed))
-    d = tempfile.mkdtemp(prefix="c13_")
+    d = workdir("c13_")
     try:
         pos, neg = os.path.join(d, "pos.fits"), os.path.join(d, "neg.fits")
         skyimg.write_fits(pos, img + bkgmap, hdr)
